@@ -337,11 +337,13 @@ def has_narrowing_cast(e):
     return any(has_narrowing_cast(x) for x in e[1:] if isinstance(x, tuple))
 
 def has_minint_additive(e):
-    """the shape on which peepPositive/peepAdditiveOp loop: SIntPlus with the literal MinInt as an operand, or
-    SIntMinus with it as right operand (also one `SIntNegate` away: a + (-(MinInt)) is rewritten to a - MinInt)"""
+    """the shape on which peepPositive/peepAdditiveOp loop: SIntPlus or SIntMinus with the literal MinInt as an
+    operand (also one `SIntNegate` away: a + (-(MinInt)) is rewritten to a - MinInt).  MinInt as the LEFT operand
+    of SIntMinus reaches the loop after one step when the right operand is negatable: MinInt - (-2) and
+    MinInt - (-x) are first rewritten to MinInt + 2 and MinInt + x."""
     def is_min(x):
         return x == ("sint", MININT & M64) or (x[0] == "b1" and x[1] == "SIntNegate" and x[2] == ("sint", MININT & M64))
-    if e[0] == "b2" and ((e[1] == "SIntPlus" and (is_min(e[2]) or is_min(e[3]))) or (e[1] == "SIntMinus" and is_min(e[3]))):
+    if e[0] == "b2" and ((e[1] == "SIntPlus" and (is_min(e[2]) or is_min(e[3]))) or (e[1] == "SIntMinus" and (is_min(e[2]) or is_min(e[3])))):
         return True
     return any(has_minint_additive(x) for x in e[1:] if isinstance(x, tuple))
 
